@@ -5,6 +5,7 @@ func init() {
 		ID:    "C19",
 		Title: "Token positions are exact, ordered and tile the source",
 		Rules: []string{
+			"R-PROGRESS / R-TEXT: every scanning loop reads once per end-of-input test; the text scanner writes every byte it consumes (the bytes of a token's range are its text)",
 			"R-LEXINPUT: lexer.New stores its argument as the input unchanged and every caller hands it the text it was given (a parameter handed through, or a file's content as read)",
 			"R-PREFIXKW: the continuation predicate for @else/@break/@continue is decided by constant evaluation (a keyword that swallows more letters leaves a gap in the token stream)",
 			"R-ORDERINGS: Position.Contains only compares its inputs; evaluated over value assignments realising every weak ordering it equals inclusive lexicographic containment (decides the function for all inputs)",
@@ -14,6 +15,8 @@ func init() {
 		NotDecided:  "TODO",
 		Assumptions: trustedBase,
 		Run: func(m *Model, s *Sink) {
+			m.RunProgress(s, "R-PROGRESS")    // a scanner reads once per end test: a second read in the same pass can pass the end of the input
+			m.RunTextFlow(s, "R-TEXT")        // the text token's literal is the bytes of its range: every byte the text scanner consumes is written
 			m.RunNoReadPastEnd(s, "R-TOKPOS") // an unterminated string or comment does not push the position past the input
 			m.RunLexInput(s, "R-LEXINPUT")
 			m.RunPrefixKW(s, "R-PREFIXKW") // the tokens tile the input: a directive keyword ends where the table says it ends
